@@ -106,7 +106,13 @@ func c13ObjectProgram(rt *rapid.T) (string, []string) {
 		// function values, built-ins and containers holding them are printable values too
 		b.WriteString(bn.KwPrint + " t;\n" + bn.KwPrint + " [t, " + bn.BLen + ", " + bn.BClock + "];\n" + bn.KwPrint + " {f: t, g: " + bn.BInput + "};\n" + bn.KwPrint + " \"fn: \" + 1;\n")
 	}
-	switch rapid.IntRange(0, 3).Draw(rt, "ending") {
+	switch rapid.IntRange(0, 6).Draw(rt, "ending") {
+	case 4:
+		b.WriteString(bn.KwPrint + " {a: u1, b: u2, c: u3, d: u4, e: u5};\n")
+	case 5:
+		b.WriteString(bn.KwFun + " fz(x) { " + bn.KwReturn + " {k: x, a: [u1], b: {c: u2}, d: u3}; }\n" + bn.KwPrint + " fz(1);\n")
+	case 6:
+		b.WriteString(bn.KwVar + " ok1 = 1;\n" + bn.KwPrint + " [{p: ok1, q: u1, r: u2}, u3];\n")
 	case 0:
 		b.WriteString(bn.KwPrint + " {p: 1, q: 2, r: 3, s: 4}.nope;\n")
 	case 1:
